@@ -48,6 +48,13 @@ def run(ck: Check):
     ck.seed -= 7
     streams["mixed"] = mixed.get("main")
     streams["templates"] = templates(ck, 3000 if ck.tier == "quick" else 45000)
+    # the enumerated self-mutation and data-shape families of the C06 product: an index / argument / operand that
+    # mutates the very array being indexed or used, nested empty arrays through every recursive walker
+    reqs = ck.gen(runlib.FAMILY, ["--kind", "product", "--only", "sink=selfmut,sink=data"])
+    res = ck.corr(runlib.FAMILY, reqs, label="run-selfmut-data", timeout=7200)
+    runlib.classify(ck, "main", reqs, res)
+    streams["selfmut"] = {"requests": reqs, "res": res}
+    ck.count("selfmut_and_data_shape_programs", len(reqs))
     if ck.tier == "thorough":
         ck.leanchecker(["NaijaVerif.Props.C05"])
     if ck.is_broken():
